@@ -34,7 +34,7 @@ mutual
     | .tag t w =>
       simp only [WF] at hw
       have := head_length_pos 6 t
-      have := size_le w hw.2
+      have := size_le w hw.2.1
       simp only [size, encode, List.length_append]; omega
     | .arr xs =>
       simp only [WF] at hw
